@@ -23,6 +23,8 @@ pub enum Strategy {
     FollowDiscard,
     RetryThenDiscard,
     RetryThenFail,
+    /// the handler makes the blocking subscriber receive one sample and retries
+    RetryConsume,
 }
 
 /// what a subscriber slot asks for in its builder
@@ -111,7 +113,7 @@ const HIST: [usize; 3] = [0, 1, 2];
 const BOR: [usize; 2] = [1, 2];
 const LOANS: [usize; 2] = [1, 2];
 const OVF: [bool; 2] = [true, false];
-const STRAT: [Strategy; 4] = [Strategy::Discard, Strategy::RetryThenDiscard, Strategy::RetryThenFail, Strategy::FollowDiscard];
+const STRAT: [Strategy; 5] = [Strategy::Discard, Strategy::RetryThenDiscard, Strategy::RetryConsume, Strategy::RetryThenFail, Strategy::FollowDiscard];
 const QOS: [SubQos; 4] = [SubQos::Default, SubQos::SmallBuffer, SubQos::NoHistory, SubQos::OneHistory];
 const PAYLOAD: [Payload; 2] = [Payload::U64, Payload::Slice];
 const START: [Start; 3] = [Start::SubFirst, Start::PubFirst, Start::PubSends];
@@ -135,8 +137,8 @@ const K_POP: usize = 13;
 
 pub const RULE: &str = "configurations = greedy covering array (cover.rs) over the knobs max_publishers{1,2} x max_subscribers{1,2} x \
 subscriber_max_buffer_size{1,2,3} x history_size{0,1,2} x subscriber_max_borrowed_samples{1,2} x max_loaned_samples{1,2} x \
-safe_overflow{on,off} x backpressure{DiscardData, RetryUntilDelivered+handler(retry twice, discard), RetryUntilDelivered+handler(retry, \
-discard-and-fail), DiscardData+handler(follow strategy)} x subscriber-0 request{default, buffer_size(1), history_request(0), \
+safe_overflow{on,off} x backpressure{DiscardData, RetryUntilDelivered+handler(retry twice, discard), RetryUntilDelivered+handler(the blocking subscriber \
+receives one sample, retry), RetryUntilDelivered+handler(retry, discard-and-fail), DiscardData+handler(follow strategy)} x subscriber-0 request{default, buffer_size(1), history_request(0), \
 history_request(1)} x subscriber-1 request{same 4} x payload{u64, [u64] slice len 1..3 static} x alphabet focus{delivery, subscriber \
 churn, publisher churn[, full]} x start prefix{subscriber first, publisher first, publisher sends history+1 samples first} x \
 population{one port per role, all ports}: every valid PAIR of knob values occurs, and every valid combination of the interacting \
@@ -147,16 +149,11 @@ array of the same knobs.";
 
 fn valid(a: &[Option<usize>]) -> bool {
     // the service builder rejects history > buffer without safe overflow
-    match (a[K_OVF], a[K_BUF], a[K_HIST]) {
-        (Some(o), Some(b), Some(h)) => {
-            if !OVF[o] && BUF[b] < HIST[h] {
-                return false;
-            }
+    // (any two of the three knobs leave a valid value for the third)
+    if let (Some(o), Some(b), Some(h)) = (a[K_OVF], a[K_BUF], a[K_HIST]) {
+        if !OVF[o] && BUF[b] < HIST[h] {
+            return false;
         }
-        (Some(o), None, Some(h)) => {
-            let _ = (o, h); // some buffer >= history always exists
-        }
-        _ => {}
     }
     true
 }
@@ -182,7 +179,7 @@ fn decode(t: &[usize], focuses: &[Focus], variant: Variant, max_creates: usize) 
 }
 
 fn knob_sizes(focuses: &[Focus]) -> Vec<usize> {
-    vec![2, 2, 3, 3, 2, 2, 2, 4, 4, 4, 2, focuses.len(), 3, 2]
+    vec![2, 2, 3, 3, 2, 2, 2, 5, 4, 4, 2, focuses.len(), 3, 2]
 }
 
 fn local_set(focuses: &[Focus], max_creates: usize) -> Vec<Cfg> {
@@ -238,13 +235,15 @@ pub fn configs(tier: Tier, prop: &str) -> Vec<(Cfg, Plan)> {
             for c in local_set(&focuses, 3) {
                 let leaves = if prop == "C08" { 3000.0 } else { 12000.0 };
                 let d = depth_for(&c, prop, leaves, 4, 7);
-                out.push((c, Plan { tree_depth: d, finish_prefixes: false, frontier: None, split: 1 }));
+                let frontier = if prop == "C08" { (60, 8) } else { (150, 10) };
+                out.push((c, Plan { tree_depth: d, finish_prefixes: false, frontier: Some(frontier), split: 1 }));
             }
         }
         Tier::Thorough => {
             let focuses = [Focus::Delivery, Focus::ChurnSub, Focus::ChurnPub, Focus::Full];
             for c in local_set(&focuses, 4) {
-                let d = depth_for(&c, prop, 150_000.0, 5, 8);
+                let leaves = if prop == "C08" { 40_000.0 } else { 120_000.0 };
+                let d = depth_for(&c, prop, leaves, 5, 8);
                 out.push((c, Plan { tree_depth: d, finish_prefixes: false, frontier: Some((1500, 12)), split: 1 }));
             }
             let focuses = [Focus::Delivery, Focus::ChurnSub, Focus::ChurnPub];
